@@ -12,6 +12,8 @@
                     ROADM crossing; calc_penalties follows update_snr on both ends.
  R4 penalties     : _calc_penalty interpolates with left = right = inf; calc_penalties always rebuilds the penalty
                     table and the total from the table it is given (no early exit keeping stale values).
+ R6 tables        : penalty tables normalised at load: sorted by impairment value, boundaries and penalties from the same
+                    rows, a (0, 0) row added only when all boundaries are positive.
  R5 order         : baud rates descending, then modes by (bit rate, offset) descending; first passing mode returned.
 """
 import ast
@@ -389,5 +391,54 @@ def r5_order(ctx):
     ctx.need('R5.order', 4)
 
 
-RULES = [('R1.verdict', r1_verdicts), ('R2.update-snr', r2_update_snr), ('R3.once', r3_once),
+def r6_tables(ctx):
+    """penalty tables normalised at load: per impairment one table sorted by impairment value, boundaries and penalties
+    taken from the same sorted rows, a (0, 0) lower boundary added only when every given boundary is positive"""
+    repo = ctx.repo
+    cls = repo.module('gnpy.tools.json_io').classes.get('Transceiver')
+    if cls is None:
+        raise AnchorMissing('json_io.Transceiver')
+    f = cls.methods['__init__']
+    s = site(f)
+    loops = [n for n in walk_no_nested(f.node) if isinstance(n, ast.For) and isinstance(n.iter, (ast.Tuple, ast.List)) and
+             {getattr(e, 'value', None) for e in n.iter.elts} == {'chromatic_dispersion', 'pmd', 'pdl'}]
+    ctx.check('R6.tables', f'{s} impairments', len(loops) == 1, key(f, 'impairments'),
+              'penalty tables are not built for exactly chromatic_dispersion, pmd and pdl')
+    if len(loops) != 1:
+        return
+    lp = loops[0]
+    imp = lp.target.id
+    rows = [n for n in lp.body if isinstance(n, ast.Assign) and isinstance(n.value, ast.ListComp)]
+    ok = len(rows) == 1 and ast.unparse(rows[0].value.generators[0].ifs[0]) == f'{imp} in {rows[0].value.generators[0].target.id}'
+    ctx.check('R6.tables', f'{s} rows of the impairment', ok, key(f, 'rows'), 'the rows of one impairment are not those that carry its key')
+    rv = rows[0].targets[0].id if rows else None
+    sorts = [c for c in ast.walk(lp) if isinstance(c, ast.Call) and isinstance(c.func, ast.Attribute) and c.func.attr == 'sort'
+             and ast.unparse(c.func.value) == rv]
+    ok = len(sorts) == 1 and kwarg(sorts[0], 'key') is not None and f'[{imp}]' in ast.unparse(kwarg(sorts[0], 'key')) and \
+        not any(k.arg == 'reverse' for k in sorts[0].keywords)
+    ctx.check('R6.tables', f'{s} sorted by impairment value', ok, key(f, 'sorted'),
+              'the rows are not sorted ascending by impairment value before interpolation (numpy.interp needs increasing abscissae)')
+    tab = [n for n in ast.walk(lp) if isinstance(n, ast.Dict) and {getattr(k, 'value', None) for k in n.keys} == {'up_to_boundary', 'penalty_value'}]
+    ok = False
+    if len(tab) == 1 and sorts:
+        d = {k.value: v for k, v in zip(tab[0].keys, tab[0].values)}
+        ok = all(isinstance(v, ast.ListComp) and ast.unparse(v.generators[0].iter) == rv for v in d.values()) and \
+            ast.unparse(d['up_to_boundary'].elt).endswith(f'[{imp}]') and ast.unparse(d['penalty_value'].elt).endswith("['penalty_value']")
+        ok = ok and stmt_of(f, tab[0]).lineno > stmt_of(f, sorts[0]).lineno
+    ctx.check('R6.tables', f'{s} boundaries and penalties from the same rows', ok, key(f, 'same-rows'),
+              'up_to_boundary and penalty_value are not read, after sorting, from the same rows (boundary i would pair with another penalty)')
+    ins = [c for c in ast.walk(lp) if isinstance(c, ast.Call) and isinstance(c.func, ast.Attribute) and c.func.attr == 'insert']
+    ok = len(ins) == 1 and ast.unparse(ins[0].args[0]) == '0' and ast.unparse(ins[0].args[1]).replace(' ', '') == "{%s:0,'penalty_value':0}" % imp
+    g = enclosing(ins[0], ast.If) if ins else None
+    t = g.test if g is not None else None
+    ok = ok and isinstance(t, ast.Call) and ast.unparse(t.func) == 'all' and len(t.args) == 1 and \
+        isinstance(t.args[0], (ast.GeneratorExp, ast.ListComp)) and ast.unparse(t.args[0].generators[0].iter) == rv and \
+        not t.args[0].generators[0].ifs and \
+        ast.unparse(t.args[0].elt).replace(' ', '') == f'{t.args[0].generators[0].target.id}[{imp}]>0'
+    ctx.check('R6.tables', f'{s} lower boundary', ok, key(f, 'lower-boundary'),
+              'the (0 impairment, 0 penalty) row is not added exactly when every given boundary is positive')
+    ctx.need('R6.tables', 5)
+
+
+RULES = [('R6.tables', r6_tables), ('R1.verdict', r1_verdicts), ('R2.update-snr', r2_update_snr), ('R3.once', r3_once),
          ('R4.penalties', r4_penalties), ('R5.order', r5_order)]
